@@ -116,6 +116,9 @@ func FuncText(f *u.Func) string {
 	if f.OptsRev {
 		s += " optsrev"
 	}
+	if f.SameVals {
+		s += " samevalues"
+	}
 	return s
 }
 
